@@ -14,7 +14,7 @@ import time
 
 from harness.sim import Sim
 
-PROPERTIES = ["C11"]
+PROPERTIES = ["C11", "C12"]
 ORDER = 45
 
 SIG_EXC = "c11:exception-escaped-while-replicating"
